@@ -38,23 +38,24 @@ def flush (w : BufW) : BufW :=
     if e then { w with sink := s, buf := w.buf.drop n, err := true }
     else { w with sink := s, buf := [] }
 
-/-- `Write(p)`; `fuel` bounds the loop (each round consumes at least one byte of `p` while no error) -/
+/-- a write that bypasses the (empty) buffer: `n, b.err = b.wr.Write(p)` -/
+def direct (w : BufW) (p : Bytes) : BufW :=
+  { w with sink := (w.sink.write p).1, err := (w.sink.write p).2.2 }
+
+/-- `Write(p)`.  The loop of bufio.Writer.Write (`for len(p) > b.Available() && b.err == nil`) runs at most
+    twice — fill-and-flush, then either a direct write or a copy into the empty buffer — and is written
+    out here case by case. -/
 def write (w : BufW) (p : Bytes) : BufW :=
-  go (p.length + 1) w p
-where
-  go : Nat → BufW → Bytes → BufW
-    | 0, w, _ => w
-    | fuel + 1, w, p =>
-      let avail := w.size - w.buf.length
-      if p.length > avail && !w.err then
-        if w.buf.isEmpty then
-          let (s, n, e) := w.sink.write p
-          go fuel { w with sink := s, err := e } (p.drop n)
-        else
-          let w' := flush { w with buf := w.buf ++ p.take avail }
-          go fuel w' (p.drop avail)
-      else if w.err then w
-      else { w with buf := w.buf ++ p }
+  if w.err then w
+  else if p.length ≤ w.size - w.buf.length then { w with buf := w.buf ++ p }
+  else if w.buf.isEmpty then direct w p
+  else
+    let avail := w.size - w.buf.length
+    let w' := flush { w with buf := w.buf ++ p.take avail }
+    let p' := p.drop avail
+    if w'.err then w'
+    else if p'.length ≤ w'.size - w'.buf.length then { w' with buf := w'.buf ++ p' }
+    else direct w' p'
 
 /-- a reporter: a sequence of writes, then `Flush`; its error is what the command returns -/
 def runChunks (size k : Nat) (chunks : List Bytes) : BufW :=
